@@ -9,6 +9,7 @@ package main
 import (
 	"errors"
 	"fmt"
+	"strconv"
 	"strings"
 	"sync"
 	"time"
@@ -25,6 +26,15 @@ const (
 	sigSetLocal
 	sigSetRemote
 	sigClose
+	// sigDeclare is no call: PeerConnection PC was built with trait Mut (it holds
+	// for the whole history, wherever the declaration stands)
+	sigDeclare
+)
+
+// traits a declaration gives a PeerConnection
+const (
+	traitNoAgent     = 1 // SettingEngine with address rewrite rules and NAT1To1 IPs: the ICE agent cannot be created
+	traitStickyTrack = 2 // a bound VP8 track whose Unbind fails: its sender cannot be stopped once it has sent
 )
 
 // signaling states and SDP types as the integers pion uses
@@ -46,15 +56,19 @@ const (
 	mutNoFingerprint
 	mutBadFingerprint
 	mutBadCandidate
+	mutBadCodec      // an audio section whose formats / extmap MediaEngine.updateFromRemoteDescription cannot read
+	mutGoodCandidate // one valid candidate line: SetRemoteDescription calls AddRemoteCandidate
+	mutInactive      // every direction attribute replaced by a=inactive: mid-matched transceivers are stopped
 	mutCount
 )
 
-var sigMutNames = []string{"none", "garbage", "no-mid", "no-ufrag", "no-pwd", "no-fingerprint", "bad-fingerprint", "bad-candidate"}
+var sigMutNames = []string{"none", "garbage", "no-mid", "no-ufrag", "no-pwd", "no-fingerprint", "bad-fingerprint", "bad-candidate",
+	"bad-codec", "good-candidate", "inactive"}
 
 type sigOp struct {
 	K   int `json:"k"`   // sigCreateOffer ... sigClose
 	PC  int `json:"pc"`  // 0 or 1
-	Ty  int `json:"ty"`  // SDPType put on the description (0..5; 5 = undeclared value)
+	Ty  int `json:"ty"`  // SDPType put on the description (0..5; 5 = undeclared value); printed for the model on a create call: 1 = refused inside SDP generation
 	Ref int `json:"ref"` // index of the create call providing the SDP text, -1 = empty text
 	Mut int `json:"mut"` // mutation class; on a create call: 1 + index of the PeerConnection whose senders cannot start under the text produced
 }
@@ -64,10 +78,19 @@ type sigCase struct {
 	Ops []sigOp `json:"ops"`
 }
 
-func (c sigCase) Coq() string {
+// Coq prints the history; refused = indices of the create calls the real code
+// refused for a reason inside SDP generation (the model takes that outcome as given).
+func (c sigCase) Coq(refused map[int]bool) string {
 	parts := make([]string, len(c.Ops))
 	for i, o := range c.Ops {
-		parts[i] = fmt.Sprintf("(%s, %d, %d, %s, %d)", CoqZ(int64(o.K)), o.PC, o.Ty, CoqZ(int64(o.Ref)), o.Mut)
+		ty := o.Ty
+		if o.K <= sigCreateAnswer {
+			ty = 0
+			if refused[i] {
+				ty = 1
+			}
+		}
+		parts[i] = fmt.Sprintf("(%s, %d, %d, %s, %d)", CoqZ(int64(o.K)), o.PC, ty, CoqZ(int64(o.Ref)), o.Mut)
 	}
 	return CoqList(parts)
 }
@@ -107,7 +130,8 @@ type sigStep struct {
 }
 
 type sigTrace struct {
-	Outside string // non-empty: a create call failed for a reason the model does not cover (SDP generation)
+	Refused map[int]bool // create calls refused inside SDP generation (class "Generate": outcome handed to the model)
+	RefusedWhy string
 	Steps  []sigStep
 	Events [2][]int // per PC, whole history
 	Late   [2][]int // events that arrived after the call they belong to was observed
@@ -150,22 +174,56 @@ func sigMutate(text string, mut int) string {
 			out = append(out, l)
 		}
 		return strings.Join(out, "\r\n")
-	case mutBadCandidate:
+	case mutBadCandidate, mutGoodCandidate:
+		cand := sigBadCandidate
+		if mut == mutGoodCandidate {
+			cand = sigGoodCandidate
+		}
 		var out []string
 		done := false
 		for _, l := range lines {
 			out = append(out, l)
 			if !done && strings.HasPrefix(l, "a=mid:") {
-				out = append(out, "a=candidate:"+sigBadCandidate)
+				out = append(out, "a=candidate:"+cand)
 				done = true
 			}
+		}
+		return strings.Join(out, "\r\n")
+	case mutBadCodec:
+		// fails in codecsFromMediaDescription when audio was not negotiated yet,
+		// in rtpExtensionsFromMediaDescription otherwise
+		return text + "m=audio 9 UDP/TLS/RTP/SAVPF " + sigBadFormat + "\r\nc=IN IP4 0.0.0.0\r\na=mid:vx\r\na=" + sigBadExtmap + "\r\na=recvonly\r\n"
+	case mutInactive:
+		var out []string
+		for _, l := range lines {
+			if l == "a=sendrecv" || l == "a=sendonly" || l == "a=recvonly" {
+				l = "a=inactive"
+			}
+			out = append(out, l)
 		}
 		return strings.Join(out, "\r\n")
 	}
 	return text
 }
 
-const sigBadCandidate = "1 1 udp notanumber 10.0.0.1 5000 typ host"
+const (
+	sigBadCandidate  = "1 1 udp notanumber 10.0.0.1 5000 typ host"
+	sigGoodCandidate = "1 1 udp 2130706431 10.0.0.1 5000 typ host"
+	sigBadFormat     = "abc"
+	sigBadExtmap     = "extmap:zz urn:x"
+)
+
+var errSigUnbind = errors.New("sticky track: unbind refused")
+
+// sigStickyTrack binds like a static sample track and refuses to unbind.
+type sigStickyTrack struct {
+	*webrtc.TrackLocalStaticSample
+}
+
+func (t sigStickyTrack) Unbind(c webrtc.TrackLocalContext) error {
+	_ = t.TrackLocalStaticSample.Unbind(c)
+	return errSigUnbind
+}
 
 func sigNormalize(s string) string {
 	var out []string
@@ -216,6 +274,16 @@ func sigErrClass(err error, text string) string {
 		return "Parse"
 	case errors.Is(err, webrtc.ErrUnsupportedCodec):
 		return "Send"
+	case errors.Is(err, webrtc.VerifErrAddressRewriteWithNAT1To1):
+		return "Agent" // sigExec: Gather (SetLocal), AddCandidate (SetRemote), Generate (create calls)
+	case errors.Is(err, errSigUnbind):
+		return "Stop"
+	}
+	if _, perr := strconv.ParseUint(sigBadFormat, 10, 8); perr != nil && perr.Error() == err.Error() {
+		return "Codec"
+	}
+	if xerr := (&sdp.ExtMap{}).Unmarshal(sigBadExtmap); xerr != nil && xerr.Error() == err.Error() {
+		return "Codec"
 	}
 	// SetLocalDescription returns the parser's error unwrapped
 	if perr := (&sdp.SessionDescription{}).UnmarshalString(text); perr != nil && perr.Error() == err.Error() {
@@ -236,7 +304,7 @@ type sigPC struct {
 
 func (p *sigPC) count() int { p.mu.Lock(); defer p.mu.Unlock(); return len(p.events) }
 
-func sigNewPC(cfg int) *sigPC {
+func sigNewPC(cfg int, traits map[int]bool) *sigPC {
 	me := &webrtc.MediaEngine{}
 	if cfg == 4 { // H264 only
 		if err := me.RegisterCodec(webrtc.RTPCodecParameters{
@@ -248,9 +316,31 @@ func sigNewPC(cfg int) *sigPC {
 	} else if err := me.RegisterDefaultCodecs(); err != nil {
 		panic(err)
 	}
-	pc, err := newQuietAPI(me).NewPeerConnection(webrtc.Configuration{})
+	api := newQuietAPI(me)
+	if traits[traitNoAgent] {
+		se := webrtc.SettingEngine{} // as newQuietAPI, plus the inconsistency
+		se.SetICEMulticastDNSMode(0 + 1)
+		se.SetNetworkTypes([]webrtc.NetworkType{webrtc.NetworkTypeUDP4})
+		se.SetInterfaceFilter(func(string) bool { return false })
+		se.SetIncludeLoopbackCandidate(false)
+		if err := se.SetICEAddressRewriteRules(webrtc.ICEAddressRewriteRule{External: []string{"192.0.2.1"}}); err != nil {
+			panic(err)
+		}
+		se.SetNAT1To1IPs([]string{"192.0.2.1"}, webrtc.ICECandidateTypeHost)
+		api = webrtc.NewAPI(webrtc.WithSettingEngine(se), webrtc.WithMediaEngine(me))
+	}
+	pc, err := api.NewPeerConnection(webrtc.Configuration{})
 	if err != nil {
 		panic(err)
+	}
+	if traits[traitStickyTrack] {
+		tr, terr := webrtc.NewTrackLocalStaticSample(webrtc.RTPCodecCapability{MimeType: webrtc.MimeTypeVP8}, "v", "s")
+		if terr != nil {
+			panic(terr)
+		}
+		if _, err = pc.AddTrack(sigStickyTrack{tr}); err != nil {
+			panic(err)
+		}
 	}
 	switch cfg {
 	case 3: // a bound VP8 track
@@ -292,7 +382,13 @@ func sigNewPC(cfg int) *sigPC {
 // sigExec runs the history on real PeerConnections.
 func sigExec(c sigCase) *sigTrace {
 	signalOnly(true)
-	pcs := [2]*sigPC{sigNewPC(c.Cfg[0]), sigNewPC(c.Cfg[1])}
+	traits := [2]map[int]bool{{}, {}}
+	for _, op := range c.Ops {
+		if op.K == sigDeclare && op.PC >= 0 && op.PC <= 1 {
+			traits[op.PC][op.Mut] = true
+		}
+	}
+	pcs := [2]*sigPC{sigNewPC(c.Cfg[0], traits[0]), sigNewPC(c.Cfg[1], traits[1])}
 	defer func() {
 		for _, p := range pcs {
 			drainIfOpen(p)
@@ -302,7 +398,7 @@ func sigExec(c sigCase) *sigTrace {
 	ids := map[string]int{}          // text handed to a set call (exact) -> identity
 	normIDs := map[string]int{}      // created text, candidate lines removed -> identity (local getters re-marshal)
 	created := map[int]*string{}     // op index -> text of a successful create call
-	tr := &sigTrace{}
+	tr := &sigTrace{Refused: map[int]bool{}}
 	idOf := func(d *webrtc.SessionDescription, local bool) *sigDesc {
 		if d == nil {
 			return nil
@@ -370,20 +466,32 @@ func sigExec(c sigCase) *sigTrace {
 			} else {
 				err = p.pc.SetRemoteDescription(d)
 			}
-		default:
+		case sigClose:
 			drainIfOpen(p)
 			err = p.pc.Close()
 			p.closed = true
+		default: // sigDeclare: no call
 		}
 		st.Err = sigErrClass(err, text)
 		if err != nil {
 			st.ErrText = err.Error()
 		}
-		if op.K <= sigCreateAnswer && err != nil && st.Err != "InvalidState" && st.Err != "NoMid" && tr.Outside == "" {
-			tr.Outside = st.ErrText
+		switch {
+		case op.K <= sigCreateAnswer && err != nil && st.Err != "InvalidState" && st.Err != "NoMid":
+			// refused inside SDP generation (transceiver matching, agent creation, ...):
+			// outside the model, which takes the outcome as given
+			if tr.RefusedWhy == "" {
+				tr.RefusedWhy = st.ErrText
+			}
+			st.Err = "Generate"
+			tr.Refused[i] = true
+		case st.Err == "Agent" && op.K == sigSetLocal:
+			st.Err = "Gather"
+		case st.Err == "Agent" && op.K == sigSetRemote:
+			st.Err = "AddCandidate"
 		}
 		st.After = int(p.pc.SignalingState())
-		if st.After != st.Before && op.K != sigClose {
+		if st.After != st.Before && op.K != sigClose && op.K != sigDeclare {
 			// the handler runs in its own goroutine: wait for it
 			deadline := time.Now().Add(10 * time.Second)
 			for p.count() == n0 && time.Now().Before(deadline) {
@@ -414,25 +522,30 @@ func sigExec(c sigCase) *sigTrace {
 	return tr
 }
 
-// sigOutside remembers which inputs met a create-call failure outside the
-// model (Run precedes Coq for the same input in lib.go's worker).
-var sigOutside sync.Map
+// sigRefused remembers, per input, which create calls the real code refused
+// inside SDP generation (Run precedes Coq for the same input in lib.go's worker).
+var sigRefused sync.Map
 
 func sigKey(c sigCase) string { return fmt.Sprintf("%v", c) }
 
-// sigCoq prints the case for the model, or "" when it left the model's scope.
+// sigCoq prints the case for the model.
 func sigCoq(c sigCase) string {
-	if _, out := sigOutside.Load(sigKey(c)); out {
-		return ""
+	refused := map[int]bool{}
+	if r, ok := sigRefused.Load(sigKey(c)); ok {
+		refused = r.(map[int]bool)
 	}
-	return c.Coq()
+	return c.Coq(refused)
 }
 
 func sigNote(c sigCase, tr *sigTrace, v *Verdict) {
-	if tr.Outside != "" {
-		sigOutside.Store(sigKey(c), true)
+	if len(tr.Refused) > 0 {
+		sigRefused.Store(sigKey(c), tr.Refused)
 		if v.OK {
-			v.Class = "outside-model: create call failed: " + tr.Outside
+			why := tr.RefusedWhy
+			if len(why) > 48 {
+				why = why[:48]
+			}
+			v.Class += "/create-refused: " + why
 		}
 	}
 }
@@ -491,7 +604,7 @@ func sigSideName(k int) string {
 func (s sigStep) isSet() bool { return s.Op.K == sigSetLocal || s.Op.K == sigSetRemote }
 
 func (s sigStep) describe(i int) string {
-	kinds := []string{"CreateOffer", "CreateAnswer", "SetLocalDescription", "SetRemoteDescription", "Close"}
+	kinds := []string{"CreateOffer", "CreateAnswer", "SetLocalDescription", "SetRemoteDescription", "Close", "(declaration)"}
 	h := ""
 	if s.Handed != nil {
 		h = fmt.Sprintf(" type=%d text=%d(%s)", s.Handed.Ty, s.Handed.ID, sigMutNames[s.Op.Mut%mutCount])
